@@ -52,7 +52,31 @@ class _C04:
         return engine_c04.run_replay(record, known)
 
 
-BY_NAME = {'A': _A, 'B': _B, 'C04': _C04}
+class _C:
+    name = 'C'
+
+    @staticmethod
+    def run_generated(prop, seed, run, tier, known=None):
+        from . import engine_c
+        return engine_c.run_generated(prop, seed, run, tier, known)
+
+    @staticmethod
+    def run_replay(record, known=None):
+        from . import engine_c
+        return engine_c.run_replay(record, known)
+
+
+BY_NAME = {'A': _A, 'B': _B, 'C04': _C04, 'C': _C}
+
+RULE_C = ("cases = simulated runs of Engine C: one seeded script (an Engine-A history, or for ~30% of the runs an Engine-B recipe "
+          "program with tracking queries), generated on the shipped configuration and then replayed on 2-4 further replicas of the "
+          "library loaded in the same process through the real PYPLATE_CONFIG -> pyplate.yaml seam with seeded "
+          "moles_storage_unit in {nmol, umol, mmol, mol}, volume_storage_unit in {nL, uL, mL, L}, internal_precision in {10, 12} "
+          "(default densities vary per run, equal across the replicas of a run). Requests are kept far from feasibility "
+          "boundaries. Compared per event: outcome class, contents / volume / capacity of every result in user units, a panel of "
+          "observer answers, bake() results and tracking answers; plus: an oracle violation that appears only under a "
+          "non-shipped configuration. Non-trivial: >= 2 successful state-changing events; distinct = distinct coverage signatures "
+          "(event tuples + the set of configurations).")
 
 # property -> list of (engine name, weight): run r uses the engine whose slot contains r mod sum(weights)
 MIX = {
@@ -63,6 +87,7 @@ MIX = {
     'C19': [('A', 2), ('B', 1)],
     'C08': [('B', 1)], 'C09': [('B', 1)], 'C15': [('B', 1)], 'C16': [('B', 1)],
     'C04': [('C04', 1)],
+    'C18': [('C', 1)],
 }
 
 RULE_B = ("cases = simulated runs of Engine B: a seeded recipe program - a prelude of directly built (non-uniform) containers and "
@@ -104,6 +129,8 @@ class Mixed:
         if names == ['C04']:
             from . import engine_c04
             return engine_c04.rule()
+        if names == ['C']:
+            return RULE_C
         parts = []
         if 'A' in names:
             parts.append(evidence.RULE['A'])
